@@ -1,12 +1,28 @@
 // walkgen: correspondence stream for model A (walk engine): C01, C02 (engine part), C08, C09, C10.
-// Modes (-mode): mixed (default) | plain (no faults/limits/cancel: C01) | perm (C08: each tree under several
-// listing orders, reply carries grp=<n>) | faults (C09: enumerated single faults and pairs) | limits (C10).
+// Modes (-mode):
+//
+//	mixed (default)  faults + limits + cancellation together
+//	plain            no faults / limits / cancellation (C01)
+//	perm             C08: each tree under several listing orders, reply carries grp=<n>
+//	subdir           C01 "requesting a reached sub-directory = the whole-tree scan restricted to it": PAIRS of cases sharing
+//	                 grp=<i>: the whole-tree scan (role=whole) and the same case with Paths = [d] for one directory node d
+//	                 (role=sub sd=<hexPath(d)>); every third pair carries 0-2 sampled faults. -n counts pairs.
+//	faults           C09, SAMPLED: 0-2 random faults per root (open-dir, open-file, open-.gitignore, stat, stat-on-open-file,
+//	                 k-th directory read)
+//	faultsx          C09, ENUMERATED: small trees (depth <= 2, <= 7 nodes, one root); per base case the fault-free scan, EVERY
+//	                 single operation site and EVERY unordered pair of distinct sites. Base cases are emitted whole until at
+//	                 least -n cases were printed. Reply carries nsites=<s> plan=<none|single|pair>.
+//	faultsq          quick tier of faultsx: fault-free + every single site + 12 pairs sampled without replacement
+//	limits           C10: inode limits around the tree size, cancellation from inside the k-th Extract (k up to the number of
+//	                 Extract calls the scan owes, + 2) or before the scan; about 2/3 of the cancelling cases lie in the exact
+//	                 theorem's class (MI = 0, EOFS = false, CB = false, no panicking extractor)
 package main
 
 import (
 	"flag"
 	"fmt"
 	"math/rand"
+	"os"
 	"regexp"
 	"sort"
 	"strings"
@@ -64,7 +80,7 @@ func (g *gen) tree(maxDepth, maxNodes int) *wc.Node {
 					nm = names[g.r.Intn(len(names))]
 				}
 				if p == "." && g.r.Intn(40) == 0 {
-					nm = "." // the one pattern a root .gitignore must not carry (GiOK): exercised, excluded from the oracle
+					nm = "." // the pattern "." in a root .gitignore: nothing excludes it from the comparison or the oracles any more, it is simply exercised
 				}
 				n.Gi = append(n.Gi, wc.Pat{Name: nm, DirOnly: g.r.Intn(4) == 0, Neg: g.r.Intn(6) == 0})
 			}
@@ -142,7 +158,8 @@ func (g *gen) newCase() *wc.Case {
 	r := g.r
 	c := &wc.Case{Ext: map[wc.EP]wc.Out{}, NExt: 1 + r.Intn(3)}
 	nroots := 1
-	plain := g.mode == "plain" || g.mode == "perm"
+	small := g.mode == "faultsx" || g.mode == "faultsq" // enumerated fault plans: small trees, one root
+	plain := g.mode == "plain" || g.mode == "perm" || g.mode == "subdir" || small
 	c.UG = r.Intn(2) == 0
 	c.RS = r.Intn(2) == 0
 	c.ISD = r.Intn(5) == 0
@@ -150,12 +167,24 @@ func (g *gen) newCase() *wc.Case {
 		c.MX = 4 + r.Intn(3)
 	}
 	usePaths := r.Intn(3) == 0
+	if g.mode == "subdir" { // the whole-tree scan: no requested paths, the sub-directory cut-off would change the meaning of Paths = [d]
+		usePaths = false
+		c.ISD = false
+	}
 	if !usePaths && r.Intn(4) == 0 {
 		nroots = 2 + r.Intn(2)
 	}
+	if g.mode == "subdir" || small {
+		nroots = 1
+	}
 	var allDirs, allFiles []string
 	for i := 0; i < nroots; i++ {
-		t := g.tree(3, 14)
+		t := (*wc.Node)(nil)
+		if small {
+			t = g.tree(2, 7)
+		} else {
+			t = g.tree(3, 14)
+		}
 		c.Roots = append(c.Roots, wc.Root{Tree: t, F: wc.Faults{Open: map[string]bool{}, Stat: map[string]bool{}, FileStat: map[string]bool{}, Read: map[string]map[int]bool{}}})
 		collect(t, &allDirs, &allFiles)
 	}
@@ -175,7 +204,9 @@ func (g *gen) newCase() *wc.Case {
 			}
 			mark(rt.Tree)
 		}
-		for _, p := range all { // a requested symlink to a DIRECTORY would be walked through the link: outside the model
+		// only symlinks to DIRECTORIES (kind 'L') are kept out of the requested-path pool: requesting one would walk through the
+		// link, which is outside the model. Requested FILE symlinks (kind 'l') are generated like any other file.
+		for _, p := range all {
 			if !linkToDir[p] {
 				pool = append(pool, p)
 			}
@@ -220,60 +251,20 @@ func (g *gen) newCase() *wc.Case {
 			}
 		}
 	}
+	if small { // the fault plans are added by the enumeration (sites / withPlan); the error kind and fatality belong to the base case
+		c.EOFS = r.Intn(2) == 0
+		c.EK = r.Intn(3)
+	}
 	if plain {
 		return c
 	}
 	// faults, limits, cancellation
 	if g.mode == "mixed" || g.mode == "faults" {
 		c.EOFS = r.Intn(3) == 0
-		for i := range c.Roots {
-			var ds, fs []string
-			collect(c.Roots[i].Tree, &ds, &fs)
-			f := c.Roots[i].F
-			for k := r.Intn(3); k > 0; k-- {
-				switch r.Intn(6) {
-				case 0:
-					f.Open[ds[r.Intn(len(ds))]] = true
-				case 1:
-					if len(fs) > 0 {
-						f.Open[fs[r.Intn(len(fs))]] = true
-					}
-				case 2:
-					d := ds[r.Intn(len(ds))]
-					gp := ".gitignore"
-					if d != "." {
-						gp = d + "/.gitignore"
-					}
-					f.Open[gp] = true
-				case 3:
-					a := append(append([]string{}, ds...), fs...)
-					f.Stat[a[r.Intn(len(a))]] = true
-				case 4:
-					if len(fs) > 0 {
-						f.FileStat[fs[r.Intn(len(fs))]] = true
-					}
-				case 5:
-					d := ds[r.Intn(len(ds))]
-					if f.Read[d] == nil {
-						f.Read[d] = map[int]bool{}
-					}
-					f.Read[d][r.Intn(5)] = true
-				}
-			}
-		}
 	}
 	if g.mode == "mixed" || g.mode == "faults" {
-		// kind of the injected errors; a NOT-EXIST answer for a .gitignore is no fault at all (the file is simply absent)
-		c.EK = r.Intn(3)
-		if c.EK == 2 {
-			for i := range c.Roots {
-				for k := range c.Roots[i].F.Open {
-					if k == ".gitignore" || strings.HasSuffix(k, "/.gitignore") {
-						delete(c.Roots[i].F.Open, k)
-					}
-				}
-			}
-		}
+		g.randFaults(c)
+		g.errKind(c)
 	}
 	if g.mode == "mixed" || g.mode == "limits" {
 		total := len(all)
@@ -289,12 +280,256 @@ func (g *gen) newCase() *wc.Case {
 		case 4:
 			c.MI = 1 + r.Intn(total+2)
 		}
+		if g.mode == "limits" {
+			// cancellation from inside the k-th Extract, k up to (the generator's estimate of) the number of Extract calls a
+			// full scan makes, + 2: every depth of the walk is a cancellation point, and some k lie beyond the last call
+			owed := len(c.Req)
+			if !usePaths {
+				owed = 0
+				for _, q := range c.Req {
+					if !belowAny(q.P, c.Skip) {
+						owed++
+					}
+				}
+			}
+			if r.Intn(3) == 0 {
+				c.CA = 1 + r.Intn(owed+2)
+			}
+			c.CB = r.Intn(25) == 0
+			if c.CA > 0 && r.Intn(3) < 2 {
+				// the configuration class of the exact cancellation theorem (CancelCfg): MI = 0, EOFS = false (never set in
+				// this mode), CB = false, CA >= 1, no panicking extractor
+				c.MI, c.CB = 0, false
+				var order []wc.EP
+				for _, k := range c.ExtOrder {
+					o := c.Ext[k]
+					o.Panic = false
+					if o.Err || len(o.Pkgs) > 0 || o.Find {
+						c.Ext[k] = o
+						order = append(order, k)
+					} else {
+						delete(c.Ext, k)
+					}
+				}
+				c.ExtOrder = order
+			}
+			return c
+		}
 		if r.Intn(4) == 0 {
 			c.CA = 1 + r.Intn(5)
 		}
 		c.CB = r.Intn(25) == 0
 	}
 	return c
+}
+
+// belowAny: p lies below (or is) one of the listed directories.
+func belowAny(p string, dirs []string) bool {
+	for _, d := range dirs {
+		if d == "." || p == d || strings.HasPrefix(p, d+"/") {
+			return true
+		}
+	}
+	return false
+}
+
+// randFaults adds 0-2 random faults to every root (modes mixed, faults; every third pair of mode subdir).
+func (g *gen) randFaults(c *wc.Case) {
+	r := g.r
+	for i := range c.Roots {
+		var ds, fs []string
+		collect(c.Roots[i].Tree, &ds, &fs)
+		f := c.Roots[i].F
+		for k := r.Intn(3); k > 0; k-- {
+			switch r.Intn(6) {
+			case 0:
+				f.Open[ds[r.Intn(len(ds))]] = true
+			case 1:
+				if len(fs) > 0 {
+					f.Open[fs[r.Intn(len(fs))]] = true
+				}
+			case 2:
+				d := ds[r.Intn(len(ds))]
+				gp := ".gitignore"
+				if d != "." {
+					gp = d + "/.gitignore"
+				}
+				f.Open[gp] = true
+			case 3:
+				a := append(append([]string{}, ds...), fs...)
+				f.Stat[a[r.Intn(len(a))]] = true
+			case 4:
+				if len(fs) > 0 {
+					f.FileStat[fs[r.Intn(len(fs))]] = true
+				}
+			case 5:
+				d := ds[r.Intn(len(ds))]
+				if f.Read[d] == nil {
+					f.Read[d] = map[int]bool{}
+				}
+				f.Read[d][r.Intn(5)] = true
+			}
+		}
+	}
+}
+
+// errKind draws the kind of the injected errors; a NOT-EXIST answer for a .gitignore is no fault at all (the file is simply absent).
+func (g *gen) errKind(c *wc.Case) {
+	c.EK = g.r.Intn(3)
+	if c.EK == 2 {
+		for i := range c.Roots {
+			for k := range c.Roots[i].F.Open {
+				if isGitignore(k) {
+					delete(c.Roots[i].F.Open, k)
+				}
+			}
+		}
+	}
+}
+
+func isGitignore(p string) bool { return p == ".gitignore" || strings.HasSuffix(p, "/.gitignore") }
+
+// site is one operation of the filesystem a fault can be planted on: 'o' Open[path], 's' Stat[path], 'f' Stat on the opened
+// file, 'r' the k-th ReadDir(1) of directory path (k = number of entries is the read that answers EOF).
+type site struct {
+	kind byte
+	path string
+	k    int
+}
+
+// sites lists the operation sites of a tree, without duplicates (the .gitignore of a directory that has one is both "the
+// directory's .gitignore" and a file node). With ek == 2 (NOT-EXIST) no Open site on a .gitignore path is listed: that answer
+// is no fault at all.
+func sites(t *wc.Node, ek int) []site {
+	var out []site
+	seen := map[site]bool{}
+	add := func(s site) {
+		if s.kind == 'o' && ek == 2 && isGitignore(s.path) {
+			return
+		}
+		if !seen[s] {
+			seen[s] = true
+			out = append(out, s)
+		}
+	}
+	var walk func(n *wc.Node)
+	walk = func(n *wc.Node) {
+		add(site{'s', n.Path, 0})
+		if n.Kind == 'd' {
+			add(site{'o', n.Path, 0})
+			gp := ".gitignore"
+			if n.Path != "." {
+				gp = n.Path + "/.gitignore"
+			}
+			add(site{'o', gp, 0}) // also when the directory has none: the engine tries to open it when UseGitignore is on
+			for k := 0; k <= len(n.Kids); k++ {
+				add(site{'r', n.Path, k})
+			}
+			for _, kid := range n.Kids {
+				walk(kid)
+			}
+			return
+		}
+		add(site{'o', n.Path, 0})
+		add(site{'f', n.Path, 0})
+	}
+	walk(t)
+	return out
+}
+
+func cloneFaults(f wc.Faults) wc.Faults {
+	g := wc.Faults{Open: map[string]bool{}, Stat: map[string]bool{}, FileStat: map[string]bool{}, Read: map[string]map[int]bool{}}
+	for k, v := range f.Open {
+		g.Open[k] = v
+	}
+	for k, v := range f.Stat {
+		g.Stat[k] = v
+	}
+	for k, v := range f.FileStat {
+		g.FileStat[k] = v
+	}
+	for d, m := range f.Read {
+		g.Read[d] = map[int]bool{}
+		for k, v := range m {
+			g.Read[d][k] = v
+		}
+	}
+	return g
+}
+
+// withPlan returns a copy of the (one-root) case whose fault maps are deep copies carrying, in addition, the given sites.
+func withPlan(c *wc.Case, plan ...site) *wc.Case {
+	v := *c
+	v.Roots = nil
+	for i, rt := range c.Roots {
+		f := cloneFaults(rt.F)
+		if i == 0 {
+			for _, s := range plan {
+				switch s.kind {
+				case 'o':
+					f.Open[s.path] = true
+				case 's':
+					f.Stat[s.path] = true
+				case 'f':
+					f.FileStat[s.path] = true
+				case 'r':
+					if f.Read[s.path] == nil {
+						f.Read[s.path] = map[int]bool{}
+					}
+					f.Read[s.path][s.k] = true
+				}
+			}
+		}
+		v.Roots = append(v.Roots, wc.Root{Tree: rt.Tree, F: f})
+	}
+	return &v
+}
+
+// enumFaults emits one base case of modes faultsx / faultsq: the fault-free scan, every single-site plan, then every unordered
+// pair of distinct sites (all = true) or 12 of them drawn without replacement. Returns the number of cases emitted.
+func (g *gen) enumFaults(c *wc.Case, all bool, out *hx.Out) int {
+	ss := sites(c.Roots[0].Tree, c.EK)
+	n := 0
+	emit := func(kind string, plan ...site) {
+		v := withPlan(c, plan...)
+		out.Emit(v.Line(), fmt.Sprintf("%s nsites=%d plan=%s", runCase(v), len(ss), kind))
+		n++
+	}
+	emit("none")
+	for _, s := range ss {
+		emit("single", s)
+	}
+	var pairs [][2]int
+	for i := range ss {
+		for j := i + 1; j < len(ss); j++ {
+			pairs = append(pairs, [2]int{i, j})
+		}
+	}
+	if !all && len(pairs) > 12 {
+		var pick [][2]int
+		for _, k := range g.r.Perm(len(pairs))[:12] {
+			pick = append(pick, pairs[k])
+		}
+		pairs = pick
+	}
+	for _, p := range pairs {
+		emit("pair", ss[p[0]], ss[p[1]])
+	}
+	return n
+}
+
+// pickDir draws the sub-directory of mode subdir: uniform among the directory nodes (kind 'd', never a link), "." itself with
+// probability at most 1/8; "." when the tree has no other directory.
+func (g *gen) pickDir(t *wc.Node) string {
+	var ds, fs []string
+	collect(t, &ds, &fs) // ds[0] == "."
+	if len(ds) == 1 {
+		return "."
+	}
+	if g.r.Intn(max(len(ds), 8)) == 0 {
+		return "."
+	}
+	return ds[1+g.r.Intn(len(ds)-1)]
 }
 
 func permuteTree(r *rand.Rand, n *wc.Node, how int) *wc.Node {
@@ -351,7 +586,7 @@ type reGlob struct{ re *regexp.Regexp }
 func (g reGlob) Match(s string) bool { return g.re.MatchString(s) }
 
 func main() {
-	mode := flag.String("mode", "mixed", "mixed|plain|perm|faults|limits")
+	mode := flag.String("mode", "mixed", "mixed|plain|perm|subdir|faults|faultsx|faultsq|limits")
 	o := hx.Parse()
 	out := hx.NewOut()
 	defer out.Flush()
@@ -363,8 +598,33 @@ func main() {
 		return
 	}
 	g := &gen{r: hx.Rng(o), mode: *mode}
+	switch *mode {
+	case "mixed", "plain", "perm", "subdir", "faults", "faultsx", "faultsq", "limits":
+	default:
+		fmt.Fprintln(os.Stderr, "walkgen: unknown mode", *mode)
+		os.Exit(2)
+	}
+	if *mode == "faultsx" || *mode == "faultsq" {
+		// whole base cases until at least -n cases were emitted (never stop in the middle of an enumeration)
+		for emitted := 0; emitted < o.N; {
+			emitted += g.enumFaults(g.newCase(), *mode == "faultsx", out)
+		}
+		return
+	}
 	for i := 0; i < o.N; i++ {
 		c := g.newCase()
+		if *mode == "subdir" {
+			if i%3 == 2 { // every third pair: 0-2 faults as in mode faults, never fatal
+				g.randFaults(c)
+				g.errKind(c)
+			}
+			d := g.pickDir(c.Roots[0].Tree)
+			out.Emit(c.Line(), fmt.Sprintf("%s grp=%d role=whole", runCase(c), i))
+			v := *c
+			v.Paths = []string{d}
+			out.Emit(v.Line(), fmt.Sprintf("%s grp=%d role=sub sd=%s", runCase(&v), i, wc.HexPath(d)))
+			continue
+		}
 		if *mode == "perm" {
 			// the same content under 5 listing orders; roots keep their order
 			for how := 0; how < 5; how++ {
